@@ -711,7 +711,7 @@ def oracle(ctx, case, K, outs):
 
 
 def run(ctx):
-    cases = [gen(ctx.rng) for _ in range(ctx.n(1500, 40000))]
+    cases = [gen(ctx.rng) for _ in range(ctx.n(4000, 60000))]
     cases.append({"possible": 4, "online": 4, "decl": {"kind": "hashvars", "vars": [["B", 1]] * 257},
                   "calls": [["load"], ["get", 0], ["get", 254], ["get", 255], ["set", 256, 1], ["set", 3, 9]]})
     impl = []
